@@ -20,6 +20,18 @@ FIXED = [
   "`(deflocalkeys-linux k 767)` + k in defsrc indexed the 767-column layer table out of bounds"),
  ("F12", "C03", "fix: a template whose expansion calls itself is a configuration error",
   "`(deftemplate again (a) ($a again $a))` + `(template-expand again template-expand)` never terminated (stack overflow with extra nesting)"),
+ ("F23", "C02", "fix: more than 12 simultaneously held layers no longer panic",
+  "13 or more held layer states (a layer-while-held key pressed 13 times without release, or stacked one-shot layers) panicked with `Vec::from_iter overflow` in trans_resolution_layer_order"),
+ ("F5", "C02", "fix: tap-hold / chord waiting time no longer overflows u16",
+  "`w.delay + w.ticks` overflowed after a key had been waiting 65535 ms (`d:e t:65535 d:a` on tap-hold-except-keys)"),
+ ("F3", "C02", "fix: stopping or restarting a dynamic macro recording with nothing recorded",
+  "`macro_items.len() - 1` on an empty list: record key pressed twice (`d:d d:d`) or two record/stop actions in one activation"),
+ ("F25", "C02", "fix: rpt-any inside a fork or multi no longer recurses",
+  "`(fork rpt-any x (keys))` / `(multi rpt-any a)` pressed twice: unbounded recursion, stack overflow abort"),
+ ("F26", "C02", "fix: an input event for key code 767 is ignored",
+  "a press of key code 767 (OsCode::KEY_MAX) indexed the 767-column layout row out of bounds"),
+ ("F1", "C02", "fix: transparent and use-defsrc actions on a chords-v2 virtual coordinate",
+  "`use-defsrc` inside a defchordsv2 action indexed src_keys[852]; `_` carried into defchordsv2 through an alias failed the assertion in resolve_coord (F1, F2)"),
 ]
 log = subprocess.check_output(["git", "-C", "/repo", "log", "--format=%h %s"]).decode().splitlines()
 out = []
